@@ -7,14 +7,14 @@
     Both are functions of the same node forest and of shared oracles with no assumed behaviour.
 
     FULL STATEMENT (all forests, all oracles):  strict_blocks F = false -> prom_accepts F = true.
-    It is FALSE of the faithful models and of the real pint/Prometheus pair: two machine-checked refutations, each with a
-    witness file that the real pint (HEAD 346020d) passes and the real rulefmt.Parse refuses: known findings
-    C01-merge-not-alias (`<<` of a non-alias) and C01-group-label-key-alias (a group label key given as a yaml alias).
+    It is FALSE of the faithful models and of the real pint/Prometheus pair: one machine-checked refutation is left, with a
+    witness file that the real pint (HEAD cd8be7e) passes and the real rulefmt.Parse refuses: known finding
+    C01-merge-not-alias (`<<` of a non-alias).
     Eight further classes were repaired in pint — null record/alert/expr (d65cbbf), group without a name (cc77cdd), limit
     that is no Go int (a6b0afc), scalar tagged !!null with text (b9483ac), group `labels: *anchor` (17469da), two `<<` keys in
     one mapping (e113542), explicit tag contradicting the kind (b22de24 at the group/rules/rule sites, 4a0d172 on rule values
-    and on collections tagged !!null): their former witnesses are machine-checked to be BLOCKED by the pint model now
-    (C01_fixed_witnesses_blocked, _round3, _tag_kind).
+    and on collections tagged !!null), group label key given as a yaml alias (cd8be7e): their former witnesses are machine-checked to be BLOCKED by the pint model now
+    (C01_fixed_witnesses_blocked, _round3, _tag_kind, C01_fixed_witness_blocked_label_key_alias).
     The guards / hypotheses these repairs made unnecessary are gone from the main theorem: "record/alert/expr not null",
     "group has a name or rules", H_int, and — since the pint model contains the strict pre-pass b9483ac with the shared
     oracle null_ok — H_null and the guard clause "null-tagged scalars spell a null" (Proofs/C01_full.v: the loader model only
@@ -251,16 +251,16 @@ Definition w_null_tagged_mapping : node :=
 Theorem C01_fixed_witnesses_blocked_tag_kind : now_blocked w_tag_kind_rule_labels /\ now_blocked w_null_tagged_mapping.
 Proof. vm_compute. repeat split. Qed.
 Print Assumptions C01_fixed_witnesses_blocked_tag_kind.
-(** A second open class (found after 17469da): a group label KEY that is an alias — parseGroup validates the text of the alias
-    node (the anchor name "n"), Prometheus the key it resolves to (`__name__`).  corpus/C01/group_label_key_alias.yaml. *)
+(** A class found after 17469da and repaired by cd8be7e: a group label KEY that is an alias — parseGroup validated the text of
+    the alias node (the anchor name "n"), Prometheus the key it resolves to (`__name__`).  corpus/C01/group_label_key_alias.yaml. *)
 Definition w_label_key_alias : node :=
   Dc 1 1 388 [Mp "!!map" 1 1 388 [Sc "!!str" "groups" 1 1 439; Sq "!!seq" 2 1 388 [Mp "!!map" 2 3 388
     [Sc "!!str" "name" 2 3 439; Sc "!!str" "__name__" 2 9 65975; Sc "!!str" "labels" 3 3 439;
      Mp "!!map" 4 5 388 [Node KAlias "!!str" "n" 4 5 407 [] (Some (Sc "!!str" "__name__" 2 9 65975)) None; Sc "!!str" "foo" 4 10 439];
      Sc "!!str" "rules" 5 3 439; Sq "!!seq" 5 10 388 []]]]].
-Theorem C01_sound_refuted_group_label_key_alias : refutes w_label_key_alias.
+Theorem C01_fixed_witness_blocked_label_key_alias : now_blocked w_label_key_alias.
 Proof. vm_compute. repeat split. Qed.
-Print Assumptions C01_sound_refuted_group_label_key_alias.
+Print Assumptions C01_fixed_witness_blocked_label_key_alias.
 Theorem C01_sound_refuted_merge_not_alias : refutes w_merge.
 Proof. vm_compute. repeat split. Qed.
 Print Assumptions C01_sound_refuted_merge_not_alias.
